@@ -132,6 +132,82 @@ pub struct Merged {
     pub nontrivial: BTreeSet<u64>,
     pub stats: BTreeMap<String, u64>,
     pub samples: Vec<Value>,
+    pub run_digests: BTreeMap<u64, u64>,
+}
+
+/// Cross-process leg: the same runs are executed again by fresh processes of the
+/// `os` build (ahash with real per-process OS keys, own ASLR layout, momtrop
+/// without the `log` feature so debug output takes the println! path), once
+/// spread over 16 and once over 5 processes, so every run index is executed in
+/// three different processes with three different process histories.  The
+/// results-only digests must agree; findings of the in-process oracle in those
+/// processes are merged in.
+fn cross_process_leg(p: &dyn Property, thorough: bool, seed: u64, total: u64, m: &mut Merged) -> Vec<Value> {
+    let xh = p.xproc_runs(thorough).min(total);
+    if xh == 0 {
+        return vec![];
+    }
+    let os_exe = match std::env::var("MOMSIM_OS_EXE") {
+        Ok(e) if std::path::Path::new(&e).exists() => e,
+        _ => {
+            eprintln!("HARNESS: the os-variant simulator binary is missing (MOMSIM_OS_EXE); run ./check setup");
+            std::process::exit(2);
+        }
+    };
+    let mut legs = Vec::new();
+    let mut all: Vec<(String, BTreeMap<u64, u64>)> = vec![("sim-build x16".into(), m.run_digests.clone())];
+    for (label, nw) in [("osA", 16u64), ("osB", 5u64)] {
+        let o = merge(spawn_workers(&os_exe, p.id(), thorough, seed, nw, xh, &[], label));
+        legs.push(json!({"leg": format!("cross-process {}", label), "build": "os: real OS hash keys per process, no log feature",
+            "processes": nw, "runs": o.runs, "findings": o.found_total, "harness_errors": o.harness.len()}));
+        m.harness.extend(o.harness.iter().map(|h| format!("[os build] {}", h)));
+        for (i, s, mut f) in o.found {
+            if let Some(obj) = f.case.as_object_mut() {
+                obj.insert("variant".into(), json!("os"));
+            }
+            m.found.push((i, s, f));
+        }
+        for (k, v) in o.found_per_class {
+            *m.found_per_class.entry(k).or_insert(0) += v;
+        }
+        m.found_total += o.found_total;
+        *m.stats.entry("cross_process_runs".into()).or_insert(0) += o.runs;
+        all.push((format!("os-build x{}", nw), o.run_digests));
+    }
+    // compare digests run by run
+    let mut mismatches = 0u64;
+    let idxs: Vec<u64> = all[0].1.keys().copied().collect();
+    let mut compared = 0u64;
+    for i in idxs {
+        let vals: Vec<(String, u64)> = all.iter().filter_map(|(l, d)| d.get(&i).map(|v| (l.clone(), *v))).collect();
+        if vals.len() < 2 {
+            continue;
+        }
+        compared += 1;
+        if vals.iter().any(|(_, v)| *v != vals[0].1) {
+            mismatches += 1;
+            let class = "results-differ-between-processes".to_string();
+            *m.found_per_class.entry(class.clone()).or_insert(0) += 1;
+            m.found_total += 1;
+            if mismatches <= 4 {
+                m.found.push((
+                    i,
+                    crate::util::run_seed(seed, &format!("{}-{}", p.id(), if thorough { "thorough" } else { "quick" }), i),
+                    Found {
+                        class,
+                        key: format!("{}:xproc:run={}", p.id(), i),
+                        detail: json!({"run_index": i, "digests": vals.iter().map(|(l, v)| json!([l, format!("{:016x}", v)])).collect::<Vec<_>>()}),
+                        case: json!({"kind": "xproc", "variant": "os", "run_index": i,
+                            "sim_digest": all[0].1.get(&i).map(|v| format!("{:016x}", v))}),
+                    },
+                ));
+            }
+        }
+    }
+    m.found.sort_by_key(|(i, _, _)| *i);
+    *m.stats.entry("cross_process_digest_comparisons".into()).or_insert(0) += compared;
+    legs.push(json!({"leg": "cross-process digest comparison", "runs_compared": compared, "mismatches": mismatches}));
+    legs
 }
 
 pub fn merge(outs: Vec<WorkerOut>) -> Merged {
@@ -145,8 +221,12 @@ pub fn merge(outs: Vec<WorkerOut>) -> Merged {
         nontrivial: BTreeSet::new(),
         stats: BTreeMap::new(),
         samples: vec![],
+        run_digests: BTreeMap::new(),
     };
     for o in outs {
+        for (i, d) in o.run_digests.iter() {
+            m.run_digests.insert(*i, *d);
+        }
         m.runs += o.runs;
         m.skipped += o.skipped;
         m.found_total += o.found_total;
@@ -185,7 +265,7 @@ fn verify_replay(exe: &str, path: &str) -> bool {
     matches!(st.ok().and_then(|s| s.code()), Some(1))
 }
 
-pub fn check(p: &dyn Property, thorough: bool, meta: Meta, extra_legs: &mut dyn FnMut(&mut Merged) -> Vec<Value>) -> i32 {
+pub fn check(p: &dyn Property, thorough: bool, meta: Meta) -> i32 {
     let t0 = Instant::now();
     let exe = std::env::current_exe().unwrap().to_string_lossy().to_string();
     let seed = verif_seed();
@@ -202,7 +282,7 @@ pub fn check(p: &dyn Property, thorough: bool, meta: Meta, extra_legs: &mut dyn 
     );
     let outs = spawn_workers(&exe, p.id(), thorough, seed, nw, total, &[], "main");
     let mut m = merge(outs);
-    let legs = extra_legs(&mut m);
+    let legs = cross_process_leg(p, thorough, seed, total, &mut m);
     if let Ok(path) = std::env::var("VERIF_DUMP_FOUND") {
         let _ = write_json(&path, &m.found);
     }
@@ -239,7 +319,9 @@ pub fn check(p: &dyn Property, thorough: bool, meta: Meta, extra_legs: &mut dyn 
             continue;
         }
         let (idx, rseed, first) = unknown[0];
-        let min = p.minimise(first);
+        let os_variant = first.case.get("variant").map(|v| v == "os").unwrap_or(false);
+        let vexe = if os_variant { std::env::var("MOMSIM_OS_EXE").unwrap_or(exe.clone()) } else { exe.clone() };
+        let min = if os_variant { first.clone() } else { p.minimise(first) };
         if let Some(k) = known.open.iter().find(|k| k.property == p.id() && k.key == min.key) {
             // minimisation landed on a known case; the unminimised one is still new
             let _ = k;
@@ -255,11 +337,14 @@ pub fn check(p: &dyn Property, thorough: bool, meta: Meta, extra_legs: &mut dyn 
             "tier": if thorough { "thorough" } else { "quick" },
             "violation": min.detail,
             "case": min.case,
-            "replay": "exact: pure function of this file and the code",
+            "variant": if os_variant { "os" } else { "sim" },
+            "replay": if min.case["kind"] == "xproc" {
+                "statistical: re-runs the run in 6 fresh processes of the os build (real OS hash keys, own address space) and compares result digests; reproduces with overwhelming probability, not exactly"
+            } else { "exact: pure function of this file and the code" },
         });
         write_json(&path, &file).expect("write replay");
-        let mut ok = verify_replay(&exe, &path);
-        if !ok {
+        let mut ok = verify_replay(&vexe, &path);
+        if !ok && !os_variant {
             // the failure needs the history of its worker process: replay the
             // worker's whole run sequence up to the failing run
             let w = idx % nw;
@@ -276,7 +361,7 @@ pub fn check(p: &dyn Property, thorough: bool, meta: Meta, extra_legs: &mut dyn 
                 "replay": "exact: re-executes the worker's run sequence up to the failing run (the failure depends on process history)",
             });
             write_json(&path, &file).expect("write replay");
-            ok = verify_replay(&exe, &path);
+            ok = verify_replay(&vexe, &path);
         }
         if !ok {
             eprintln!(
@@ -374,6 +459,32 @@ pub fn replay(props: &[&dyn Property], path: &str) -> i32 {
         }
     };
     let case = &v["case"];
+    if case["kind"] == "xproc" {
+        let exe = std::env::current_exe().unwrap();
+        let seed = v["verif_seed"].as_u64().unwrap();
+        let idx = case["run_index"].as_u64().unwrap();
+        let mut ds: Vec<String> = Vec::new();
+        if let Some(d) = case["sim_digest"].as_str() {
+            ds.push(d.to_string());
+        }
+        for _ in 0..6 {
+            let o = Command::new(&exe)
+                .args(["xone", pid, v["tier"].as_str().unwrap_or("quick"), &seed.to_string(), &idx.to_string()])
+                .stderr(Stdio::null())
+                .output();
+            if let Ok(o) = o {
+                ds.push(String::from_utf8_lossy(&o.stdout).trim().to_string());
+            }
+        }
+        let differ = ds.iter().any(|d| *d != ds[0]);
+        crate::say!("xproc replay digests: {:?}", ds);
+        if differ {
+            crate::say!("VIOLATION property={} replay={} class={}", pid, path, class);
+            return 1;
+        }
+        crate::say!("replay: class {} did NOT reproduce", class);
+        return 0;
+    }
     let found: Vec<Found> = if case["kind"] == "prefix" {
         let seed = v["verif_seed"].as_u64().unwrap();
         let thorough = v["tier"] == "thorough";
